@@ -241,6 +241,21 @@ def run_schedule(scn, plan=(), seed=None, switch_prob=0.0, record=False):
             sk.close()
         except OSError:
             pass
+    if finished and not S.deadlock:
+        # the wake-up pipes of this schedule's pollers (plain descriptor numbers, nobody closes them): thousands of schedules run in one process
+        import os as _os
+        from circuits.core.pollers import BasePoller as _BP
+        for m in (app, st.get('app2')):
+            for c in ([m] + list(getattr(m, 'components', ()))) if m is not None else ():
+                if isinstance(c, _BP):
+                    for fd in (getattr(c, '_ctrl_recv', None), getattr(c, '_ctrl_send', None)):
+                        try:
+                            if isinstance(fd, int):
+                                _os.close(fd)
+                            elif fd is not None:
+                                fd.close()
+                        except OSError:
+                            pass
     res = {'finished': finished, 'violation': S.violation, 'deadlock': S.deadlock, 'dispatched': list(st['dispatched']),
            'switches': list(S.switches), 'points': S.n_points, 'loop_blocked': st.get('loop_blocked', 0),
            'virtual_timeouts': S.virtual_timeouts, 'errors': {t.name: t.error for t in S.threads.values() if t.error},
